@@ -436,7 +436,7 @@ def run(chk, F, tier):
                 if m not in ORD or not (fn.get("trait") or "").startswith("core::cmp::Partial"):
                     continue
                 a0, a1 = (T.of_operand(x) for x in d[3]["args"][:2])
-                isw = lambda t_: t_ == ("var", "weight")              # noqa: E731
+                isw = lambda t_: t_ == T.var(3)                       # noqa: E731   the new weight: third parameter of update(&mut self, index, weight)
                 iso = lambda t_: t_[0] == "call" and t_[1] == "get"   # noqa: E731
                 if isw(a0) and iso(a1):
                     flip = False
